@@ -146,6 +146,18 @@ def _settings_again(schema: dict) -> dict:
     return settings
 
 
+def _emit_paths(schema: dict, path: tuple = ()) -> list:
+    """The paths at which a store schema sets an ``_emit`` flag."""
+    paths = []
+    for key, value in schema.items():
+        if key == '_emit':
+            paths.append(path)
+        elif isinstance(value, dict) and not str(key).startswith('_') \
+                and key != '*':
+            paths.extend(_emit_paths(value, path + (key,)))
+    return paths
+
+
 def timestamp(dt: Optional[Any] = None) -> str:
     """Get a timestamp of the form ``YYYYMMDD.HHMMSS``.
 
@@ -505,6 +517,14 @@ class Engine:
             settings = _settings_again(store_schema)
             if settings:
                 self.state._apply_config(settings)
+            # The emit flags it sets are explicit requests: the schema
+            # of a process that enters later (a daughter, a generated
+            # agent) does not undo them.
+            for path in _emit_paths(store_schema):
+                try:
+                    self.state.get_path(path)._pin_emit()
+                except Exception:  # pylint: disable=broad-except
+                    pass
             self.state.apply_defaults()
             self.state.build_topology_views()
 
